@@ -21,7 +21,7 @@ ASSUMPTIONS = [
     'liveness ("always eventually fired") is decided at quiescence: queue empty and no runnable task for two loop iterations',
     'events cancelled only before their dispatch; a cancelled event has no handler steps',
 ]
-REQUIRED = ['raising_descendant_asks_for_feedback_of_its_own', 'success_requested_one_handler_raised_another_finished_later', 'complete_requested', 'nested_complete', 'descendant_cancelled', 'descendant_stopped', 'descendant_raised',
+REQUIRED = ['handler_suspended_by_sleep', 'raising_descendant_asks_for_feedback_of_its_own', 'success_requested_one_handler_raised_another_finished_later', 'complete_requested', 'nested_complete', 'descendant_cancelled', 'descendant_stopped', 'descendant_raised',
             'descendant_from_generator_step', 'several_roots_in_flight', 'complete_channels_override', 'closure_depth_3plus',
             'handler_suspended_in_call_or_wait', 'call_or_wait_timed_out_in_closure', 'suspended_again_right_after_timeout',
             'root_events_fired_on_a_component_that_joins_later', 'complete_requesting_event_object_fired_again', 'feedback_event_handler_in_closure', 'derived_child_event_in_closure', 'driven_by_tick_from_the_calling_thread', 'manager_had_an_earlier_run', 'earlier_run_in_another_thread', 'earlier_run_ended_with_exit_code']
@@ -200,6 +200,8 @@ def evaluate(case, w):
             marks.add('earlier_run_in_another_thread')
         if pre.get('code') is not None:
             marks.add('earlier_run_ended_with_exit_code')
+    if any(a[0] == 'sleep' for h in case['handlers'] for a in h['body']):
+        marks.add('handler_suspended_by_sleep')
     roots_complete = [u for u, info in w.events.items() if info['flags'].get('complete') and info['parent'] is None]
     if len(roots_complete) >= 2:
         marks.add('several_roots_in_flight')
@@ -340,6 +342,11 @@ def corpus():
             HD(2, 'step', [['yield', None], ['raise']], gen=True, prio=1), HD(3, 'step', [['yield', None], ['yield', None], ['fire', {'name': 'late'}]], gen=True),
             HD(6, 'step', [['ret', 'p']], prio=2), HD(4, 'late', [['yield', None], ['fire', {'name': 'e'}]], gen=True), HD(5, 'e', [])],
             'fires': [{'name': 'a', 'flags': C}, {'name': 'step', 'flags': dict(fl, complete=True)}]})
+    # handlers of the closure suspended by `yield sleep(0)` before and after they fire
+    cs.append({'name': 'sleeping-handlers-in-closure', 'handlers': [
+        HD(1, 'a', [['sleep', 0], ['fire', {'name': 'b'}], ['sleep', 0], ['sleep', 0], ['fire', {'name': 'c', 'flags': C}]], gen=True),
+        HD(2, 'b', [['fire', {'name': 'd'}], ['sleep', 0], ['raise']], gen=True), HD(3, 'c', [['sleep', 0], ['fire', {'name': 'd'}]], gen=True),
+        HD(4, 'd', [['sleep', 0], ['sleep', 0], ['fire', {'name': 'e'}]], gen=True), HD(5, 'e', [])], 'fires': [{'name': 'a', 'flags': C}, {'name': 'a', 'flags': C}]})
     # (events fired by a <name>_success handler are not part of the closure of what caused <name>: only observed)
     cs.append({'name': 'success-handler-fires', 'handlers': [
         HD(1, 'a', [['fire', {'name': 'b', 'flags': {'success': True}}]]), HD(2, 'b', [['fire', {'name': 'c'}]]), HD(3, 'b_success', [['fire', {'name': 'd'}]]),
@@ -452,7 +459,7 @@ def gen_plain_case(rng):
                     elif r < 0.68:
                         body.append(['stop'])
                     elif r < 0.85 and gen:
-                        body.append(['yield', rng.choice([None, 'v'])])
+                        body.append(['yield', rng.choice([None, 'v'])] if rng.random() < 0.8 else ['sleep', 0])   # (`yield sleep(0)`: the other suspension)
                 if rng.random() < 0.12:
                     body.append(['raise'] if rng.random() < 0.75 else ['raise', 'base'])
                 handlers.append(HD(hid, nm, body, gen=gen, prio=rng.choice([0, 0, 1])))
